@@ -533,6 +533,8 @@ func runC20(c *Ctx) {
 		if !c.need("R20.3", "encoder closure", encf != nil) {
 			return
 		}
+		c.rule("R20.10", "the encoder does nothing with the caller's reader except hand it to the upload request as its body (no Read, Seek or read-ahead wrapper)")
+		c.readerUntouched("R20.10", encf)
 		construct := fmt.Sprintf("%s: fresh id", fname(encf))
 		var idCall *ssa.Call
 		allInstrs(encf, func(in ssa.Instruction) {
@@ -1034,5 +1036,103 @@ func (c *Ctx) countersBalanced(rule string, pkg *types.Package) {
 	}
 	if n == 0 {
 		c.ok(rule, "no counting limit", "-", "nothing to balance")
+	}
+}
+
+// readerUntouched: R20.10. The handler must see exactly the bytes the caller's reader would have
+// yielded from where it stands. The encoder therefore does nothing with the reader except hand it to
+// the upload request as its body: no Read, no Seek (measuring a seekable reader and rewinding it "to
+// the start" re-sends a prefix the caller had already consumed), no wrapping that reads ahead.
+func (c *Ctx) readerUntouched(rule string, encf *ssa.Function) {
+	var rd ssa.Value
+	allInstrs(encf, func(in ssa.Instruction) {
+		if ta, ok := in.(*ssa.TypeAssert); ok && isNamed(ta.AssertedType, "io", "Reader") {
+			rd = ta
+			if ta.CommaOk {
+				for _, ref := range *ta.Referrers() {
+					if ex, ok := ref.(*ssa.Extract); ok && ex.Index == 0 {
+						rd = ex
+					}
+				}
+			}
+		}
+	})
+	construct := fmt.Sprintf("%s: the caller's reader is only handed to the upload", fname(encf))
+	if rd == nil {
+		c.und(rule, construct, c.P.pos(encf.Pos()), "the reader argument was not found")
+		return
+	}
+	var bad ssa.Instruction
+	seen := map[ssa.Value]bool{}
+	var walk func(v ssa.Value, d int)
+	walk = func(v ssa.Value, d int) {
+		if v == nil || seen[v] || d > 8 || v.Referrers() == nil {
+			return
+		}
+		seen[v] = true
+		for _, ref := range *v.Referrers() {
+			switch x := ref.(type) {
+			case *ssa.DebugRef:
+			case *ssa.TypeAssert, *ssa.ChangeInterface, *ssa.MakeInterface, *ssa.Extract, *ssa.Phi:
+				walk(x.(ssa.Value), d+1)
+			case *ssa.Store:
+				if x.Val == v {
+					if al, ok := x.Addr.(*ssa.Alloc); ok {
+						for _, r2 := range *al.Referrers() {
+							if ld, ok := r2.(*ssa.UnOp); ok {
+								walk(ld, d+1)
+							}
+							if mc, ok := r2.(*ssa.MakeClosure); ok {
+								g := mc.Fn.(*ssa.Function)
+								for i, b := range mc.Bindings {
+									if b == ssa.Value(al) && i < len(g.FreeVars) {
+										for _, r3 := range *g.FreeVars[i].Referrers() {
+											if ld, ok := r3.(*ssa.UnOp); ok {
+												walk(ld, d+1)
+											}
+										}
+									}
+								}
+							}
+						}
+					} else {
+						bad = ref
+					}
+				}
+			case *ssa.MakeClosure:
+				g := x.Fn.(*ssa.Function)
+				for i, b := range x.Bindings {
+					if b == v && i < len(g.FreeVars) {
+						walk(g.FreeVars[i], d+1)
+					}
+				}
+			case ssa.CallInstruction:
+				cm := x.Common()
+				if cm.IsInvoke() && cm.Value == v {
+					bad = ref // a method called on the reader (Read, Seek, …)
+					continue
+				}
+				switch calleeName(x) {
+				case "net/http.Post", "(*net/http.Client).Post", "net/http.NewRequest", "net/http.NewRequestWithContext":
+				default:
+					if g := staticCallee(x); g != nil && c.P.allFns[g] {
+						for i, a := range cm.Args {
+							if a == v && i < len(g.Params) {
+								walk(g.Params[i], d+1)
+							}
+						}
+					} else {
+						bad = ref
+					}
+				}
+			default:
+			}
+		}
+	}
+	walk(rd, 0)
+	if bad != nil {
+		c.bad(rule, construct, c.ipos(bad), "the encoder operates on the caller's reader itself (reads, seeks or wraps it) before the upload: measuring a seekable reader and rewinding it to its start makes the handler see bytes the caller had already consumed — the stream is no longer exactly the caller's byte sequence")
+	} else {
+		c.ok(rule, construct, c.ipos(rd.(ssa.Instruction)), "only passed on as the body of the upload request")
 	}
 }
